@@ -216,3 +216,64 @@ def _parse_opts(s: Dict[str, Any]) -> Dict[str, Any]:
     if s.get("drop"):
         kw["drop_invalid_rows"] = True
     return kw
+
+
+def column_schema(c: Dict[str, Any], pa=None):
+    import pandera as _pa
+
+    pa = pa or _pa
+    kw = dict(
+        checks=[check(x, pa) for x in c["checks"]],
+        nullable=bool(c["nullable"]),
+        unique=bool(c["unique"]),
+        report_duplicates=c["report"],
+        required=bool(c["required"]),
+        regex=bool(c["regex"]),
+    )
+    kw.update(_parse_opts(c))
+    return pa.Column(DT[c["dtype"]], **kw)
+
+
+def index_schema(s: Dict[str, Any], pa=None):
+    import pandera as _pa
+
+    pa = pa or _pa
+    if "levels" in s:
+        return pa.MultiIndex([index_schema(x, pa) for x in s["levels"]], **({"coerce": True} if s.get("coerce") else {}))
+    return pa.Index(
+        DT[s["dtype"]],
+        checks=[check(c, pa) for c in s["checks"]],
+        nullable=bool(s["nullable"]),
+        unique=bool(s["unique"]),
+        report_duplicates=s["report"],
+        name=None if is_na(s["name"]) else val(s["name"]),
+        **({"coerce": True} if s.get("coerce") else {}),
+    )
+
+
+def frame_schema(s: Dict[str, Any], pa=None):
+    import pandera as _pa
+
+    pa = pa or _pa
+    cols = {}
+    for c in s["cols"]:
+        cols[val(c["key"])] = column_schema(c, pa)
+    kw: Dict[str, Any] = {}
+    if "dtype" in s.get("index", {}) or "levels" in s.get("index", {}):
+        kw["index"] = index_schema(s["index"], pa)
+    strict = {"no": False, "yes": True, "filter": "filter"}[s["strict"]]
+    if s.get("unique"):
+        kw["unique"] = [val(x) for x in s["unique"]]
+    if s.get("checks"):
+        kw["checks"] = [check(x, pa) for x in s["checks"]]
+    return pa.DataFrameSchema(
+        cols,
+        strict=strict,
+        ordered=bool(s["ordered"]),
+        unique_column_names=bool(s["ucn"]),
+        add_missing_columns=bool(s["addmiss"]),
+        report_duplicates=s["report"],
+        coerce=bool(s["coerce"]),
+        drop_invalid_rows=bool(s["drop"]),
+        **kw,
+    )
